@@ -445,7 +445,7 @@ func verifH_C04_rules() {
 	verifReach("end")
 }
 
-//verif:harness id=C04 tier=quick,thorough witness=end bounds="options on the conforming document and on unrelated violations: every subset of {DisableExamplesValidation, DisableSchemaDefaultsValidation, DisableSchemaPatternValidation, EnableSchemaFormatValidation} keeps the conforming document accepted and does not hide a missing response description / blank parameter name / unresolved reference"
+//verif:harness id=C04 tier=quick,thorough witness=end bounds="options on the conforming document and on unrelated violations: every subset of {DisableExamplesValidation, DisableSchemaDefaultsValidation, DisableSchemaPatternValidation, EnableSchemaFormatValidation} keeps the conforming document accepted and does not hide a missing response description / blank parameter name / unresolved reference; a default (example) violating its schema, in a component or a property, is reported exactly when the option naming defaults (examples) is not given"
 func verifH_C04_options() {
 	doc := verifLoadBase()
 	if doc == nil {
@@ -468,13 +468,33 @@ func verifH_C04_options() {
 	ctx := context.Background()
 	verifAssert(doc.Validate(ctx, opts...) == nil, "C04 options: the conforming document is accepted under every option set")
 	sites := verifCollectSites(doc)
-	switch verifChoose("violation", 3) {
+	violation := verifChoose("violation", 5)
+	bad := &Schema{Type: &Types{"integer"}}
+	switch violation {
 	case 0:
 		sites.responses[0].Description = nil
 	case 1:
 		sites.params[0].Name = ""
 	case 2:
 		sites.schemaRefs[0].Ref, sites.schemaRefs[0].Value = "#/components/schemas/Nope", nil
+	case 3: // a default that violates its schema: switched off by the defaults option only
+		bad.Default = "x"
+	case 4: // an example that violates its schema: switched off by the examples option only
+		bad.Example = "x"
+	}
+	if violation >= 3 {
+		// ... in a component schema, or in a property of one
+		if verifChoose("nested", 2) == 1 {
+			bad = &Schema{Type: &Types{"object"}, Properties: Schemas{"p": {Value: bad}}}
+		}
+		if doc.Components.Schemas == nil {
+			doc.Components.Schemas = Schemas{}
+		}
+		doc.Components.Schemas["VerifBadValue"] = &SchemaRef{Value: bad}
+		off := violation == 3 && set&2 != 0 || violation == 4 && set&1 != 0
+		verifAssert((doc.Validate(ctx, opts...) != nil) == !off, "C04 options: a default (an example) violating its schema is reported unless the option that names defaults (examples) is given")
+		verifReach("end")
+		return
 	}
 	verifAssert(doc.Validate(ctx, opts...) != nil, "C04 options: an option does not switch off checks it does not name")
 	verifReach("end")
